@@ -510,6 +510,13 @@ def f4(ctx, fx, rule="C10.F4"):
         else:
             ctx.finding(rule, D, "envelope-kb-optional", "the reader requires the `kb_jwt` member (missing_field yields an error, not None: `%s`): a JSON-serialized SD-JWT without "
                         "key binding that leaves the member out is rejected while its Compact transcoding is accepted" % ty)
+    # the member names are those of the specification's JSON serialization (the names C10 transcodes by)
+    SPEC_MEMBERS = {"protected", "payload", "signature", "disclosures", "kb_jwt"}
+    if set(written) == SPEC_MEMBERS:
+        ctx.ok(rule, S, "envelope-spec-names", "the JSON form is written with the members %s" % sorted(SPEC_MEMBERS))
+    else:
+        ctx.finding(rule, S, "envelope-spec-names", "the JSON form is written with the members %s, not %s (a rename / rename_all): a JSON form using the specified names is then read with "
+                    "the renamed members missing or ignored" % (sorted(written), sorted(SPEC_MEMBERS)))
     # unknown members of the JSON form are ignored (C10's quantifier: "extra unknown members in the JSON form"): the Compact transcoding
     # simply does not carry them. `#[serde(deny_unknown_fields)]` makes the derived field visitor call `de::Error::unknown_field`.
     unk = [(f, t) for n_, f in fx.fns.items() if "Deserialize" in n_ and "SDJWTJson" in n_ for _b, t in f.calls() if t.get("name") == "unknown_field"]
